@@ -345,6 +345,7 @@ func run(c *enum.Ctx) {
 	c.Rule("complete enumeration: kind x encoding x all 256 values (x 5 offsets for the probability grids); the same encode/decode/probability laws through quality.Phred, quality.Solexa and linear.QSeq (QEncode, QDecode, EAt, SetE, %q) after every two-step encoding history (built with encoding A, encoded once, optionally copied, SetEncoding(B)) x all values; a case is non-trivial when the oracle applies (value inside the printable/representable range the statement names); distinct by (kind,encoding,value,offset)")
 	c.Assume("printable range: bytes 33..126 (Illumina1_5: 'B'..126; Solexa: 59..126, i.e. scores from -5)", "sentinel scores 254/255 (Phred) and 127/-128 (Solexa) are excluded", "math.Pow/math.Log10 of this Go toolchain are the analytic reference (1e-12 relative tolerance)")
 	add := func(k kase) {
+		c.Doing(0, k)
 		c.Eval()
 		if check(c, k) {
 			c.Nontrivial(enum.J(k))
